@@ -2,7 +2,7 @@ CONSTANTS D = 2  Mode = "flat"  Lo = 0  Hi = 3  N = 0
   ShapeSet <- MCShapes
   SizeTermSt = {"completed", "skipped"}
   ElemTermSt = {"completed", "skipped", "failed"}
-  OrderSet <- Free
+  OrderFor <- Free
   Drop = TRUE  Eager = FALSE  Record = FALSE
 SPECIFICATION FairSpec
 INVARIANT I1_Identity
